@@ -51,6 +51,8 @@ pub struct St {
     pub propose_size: usize,
     /// Valid pre-genesis justification for block n is `[n as u8; 3]`.
     pub pregenesis: bool,
+    /// Tag mixed into proposed payloads (node index and incarnation).
+    pub tag: u8,
 }
 
 #[derive(Debug, Clone)]
@@ -84,6 +86,7 @@ impl SimEngine {
             reject_marked_payloads: true,
             propose_size: 8,
             pregenesis: true,
+            tag: 0,
         };
         let persisted = Arc::new(sync::watch::channel(store_state(first, &st.blocks)).0);
         Self { st: Arc::new(Mutex::new(st)), persisted }
@@ -219,7 +222,7 @@ impl EngineInterface for SimEngine {
 
     async fn propose_payload(&self, _ctx: &ctx::Ctx, number: BlockNumber) -> ctx::Result<Payload> {
         let st = self.st.lock().unwrap();
-        Ok(Self::payload_for(number.0, st.incarnation as u8, st.propose_size))
+        Ok(Self::payload_for(number.0, st.tag, st.propose_size))
     }
 
     async fn get_state(&self, _ctx: &ctx::Ctx) -> ctx::Result<ReplicaState> {
